@@ -12,6 +12,7 @@ import os
 
 import numpy as np
 
+from vf import bigcases
 from vf import core
 from vf import callforms
 from vf import errorpaths
@@ -289,3 +290,6 @@ def run(ctx):
     ctx.cov["order_min_ratio"] = min(mr) if mr else None
     if not mr:
         raise core.HarnessError("no ladder produced a judged pair")
+    if ctx.tier != "quick":
+        # 45 s and ~3 GB: thorough tier only
+        bigcases.run(ctx, "C05", sub="the size regime: more than 2^24 cells (analytic mode vs closed form by FFT)")
